@@ -229,6 +229,7 @@ var platforms = []string{
 	`{"architecture":"arm","os":"linux","variant":"v6"}`,
 	`{"architecture":"ppc64le","os":"linux"}`,
 	`{"architecture":"amd64","os":"windows","os.version":"10.0.17763.1"}`,
+	`{"architecture":"amd64","os":"windows","os.version":"10.0.20348.2"}`,
 	`{"architecture":"unknown","os":"unknown"}`,
 }
 
